@@ -24,6 +24,7 @@ import AmrK.BoxSel
 import AmrK.MenuClass
 import AmrK.MeshEq
 import AmrK.F64Text
+import AmrK.F32Cast
 import AmrK.TasteCoords
 import AmrK.CellHRewrite
 import AmrK.HeaderRewrite
@@ -472,6 +473,16 @@ def opFloatTokens (j : Json) : Except String Json := do
       | some false => "not-nearest"
   return Json.mkObj [("status", "ok"), ("verdicts", toJson res)]
 
+/-- doubles against the singles they were converted to -/
+def opCast32 (j : Json) : Except String Json := do
+  let ps ← (← j.getObjVal? "pairs").getArr?
+  let bad ← ps.toList.zipIdx.filterMapM fun (p, i) => do
+    let a ← p.getArr?
+    let w ← a[0]!.getNat?
+    let v ← a[1]!.getNat?
+    return if F32.castOK w v then none else some i
+  return Json.mkObj [("status", "ok"), ("n", toJson ps.size), ("bad", toJson bad)]
+
 /-- `PlotfileCooker.__eq__` -/
 def meshLvOfJson (j : Json) : Except String MeshEq.Lv := do
   let bs ← (← j.getObjVal? "bounds").getArr?
@@ -752,6 +763,7 @@ partial def loop (h : IO.FS.Stream) (out : IO.FS.Stream) (files : Std.HashMap St
         | "menu_vars" => opMenuVars j
         | "mesh_eq" => opMeshEq j
         | "float_tokens" => opFloatTokens j
+        | "cast32" => opCast32 j
         | "fab_rows" => opFabRows files j
         | "combine_cellh" => opCombineCellH j
         | "rewrite_header" => opRewriteHeader j
